@@ -218,13 +218,14 @@ def scripted_cases():
                 res.append({"cfg": {"parents": par, "start": 0, "m": 2000}, "ops": ops})
     # in sync, the peer reorganises at height h, and AGAIN at the same height before the first branch's blocks have
     # all arrived (k steps of the fair schedule after the first reorganisation, k = 1..12)
-    par = [[i, i - 1] for i in range(1, 6)] + [[50, 4], [51, 50], [60, 4], [61, 60], [62, 61]]
+    # (the peer only moves to a chain with MORE blocks: the second branch is one block longer than the first)
+    par = [[i, i - 1] for i in range(1, 6)] + [[50, 4], [51, 50], [60, 4], [61, 60], [62, 61], [63, 62]]
     main = list(range(0, 6))
     for k in range(1, 13):
         for check in (0, 1):
             ops = [["peer_set_best", main], ["settle", SETTLE], ["peer_set_best", main[:5] + [50, 51]], ["settle", k]] + \
                   ([["check"]] if check else []) + \
-                  [["peer_set_best", main[:5] + [60, 61]], ["settle", SETTLE], ["peer_set_best", main[:5] + [60, 61, 62]], ["settle", SETTLE]]
+                  [["peer_set_best", main[:5] + [60, 61, 62]], ["settle", SETTLE], ["peer_set_best", main[:5] + [60, 61, 62, 63]], ["settle", SETTLE]]
             res.append({"cfg": {"parents": par, "start": 0, "m": 2000}, "ops": ops})
     # ... the same with the first branch's BLOCKS slow: the peer answers the header request before the older block
     # requests (answer j > 0), the node has the peer's last header and only waits for blocks, and then the second
@@ -234,8 +235,23 @@ def scripted_cases():
             for check in (0, 1):
                 ops = [["peer_set_best", main], ["settle", SETTLE], ["peer_set_best", main[:5] + [50, 51]], ["deliver", 0], ["check"],
                        ["answer", j]] + [["deliver", 0]] * nd + ([["check"]] if check else []) + \
-                      [["peer_set_best", main[:5] + [60, 61]], ["deliver", 0], ["check"], ["settle", SETTLE],
-                       ["peer_set_best", main[:5] + [60, 61, 62]], ["settle", SETTLE]]
+                      [["peer_set_best", main[:5] + [60, 61, 62]], ["deliver", 0], ["check"], ["settle", SETTLE],
+                       ["peer_set_best", main[:5] + [60, 61, 62, 63]], ["settle", SETTLE]]
+                res.append({"cfg": {"parents": par, "start": 0, "m": 2000}, "ops": ops})
+    # the schedule of seeded/C01_5: in sync at [0..5]; reorganisation at height 4 to 50,51 announced, the node
+    # reverts and requests 50,51 (getdata on its way), check asks for more headers; the peer answers the HEADER
+    # request first (answer 1: its last header alone -> the node is "pending sync" with the blocks outstanding);
+    # before 50 arrives the peer reorganises again at height 4 (60,61,62) and announces: 60's parent is the node's
+    # processed tip while 50,51 are pending ("Reorg on latest block": all requests dropped, 61 does not connect);
+    # then everything is consumed.  The node must ask for headers again and end on the peer's chain.
+    for check1 in (0, 1):          # a check between "pending sync" and the second announcement
+        for late in (0, 1):        # the stale blocks are served before / after the second announcement is handled
+            for more in (0, 1):    # the peer extends once more at the end
+                ops = [["peer_set_best", main], ["settle", SETTLE], ["peer_set_best", main[:5] + [50, 51]], ["deliver", 0], ["check"],
+                       ["answer", 1], ["deliver", 0]] + ([["check"]] if check1 else []) + \
+                      [["peer_set_best", main[:5] + [60, 61, 62]]] + ([] if late else [["answer", 0]]) + \
+                      [["deliver", 0], ["settle", SETTLE]] + \
+                      ([["peer_set_best", main[:5] + [60, 61, 62, 63]], ["settle", SETTLE]] if more else [])
                 res.append({"cfg": {"parents": par, "start": 0, "m": 2000}, "ops": ops})
     return res
 
